@@ -131,8 +131,23 @@ def _identity_branch(fi, ret, core, op, reflected, other):
     return None
 
 
+_OPERATOR_FUNCS = {'add': ast.Add, 'sub': ast.Sub, 'mul': ast.Mult, 'truediv': ast.Div, 'matmul': ast.MatMult, 'floordiv': ast.FloorDiv}
+
+
+def _as_binop(core):
+    """operator.add(a, b) / np.add(a, b) ... spelled as the binary operation it is"""
+    if isinstance(core, ast.Call) and isinstance(core.func, ast.Attribute) and isinstance(core.func.value, ast.Name) and len(core.args) == 2 and not core.keywords:
+        mod, fn = core.func.value.id, core.func.attr
+        table = _OPERATOR_FUNCS if mod == 'operator' else ({'add': ast.Add, 'subtract': ast.Sub, 'multiply': ast.Mult, 'divide': ast.Div, 'matmul': ast.MatMult}
+                                                          if mod in ('np', 'numpy') else {})
+        if fn in table:
+            return ast.copy_location(ast.BinOp(left=core.args[0], op=table[fn](), right=core.args[1]), core)
+    return core
+
+
 def _agrees(core, op, reflected, other, assigns, name):
     opn = OPNAME[op]
+    core = _as_binop(core)
     # delegation to a dunder of the same operator
     if isinstance(core, ast.Call) and isinstance(core.func, ast.Attribute) and core.func.attr.startswith('__'):
         tgt = core.func.attr
@@ -199,7 +214,10 @@ def flat_method(ci, name, depth=2, stop=()):
     helpers = {m_ for m_ in ci.methods if m_.startswith('_') and not m_.startswith('__')}
     uses_helper = any(isinstance(c_, _ast.Call) and isinstance(c_.func, _ast.Attribute) and c_.func.attr in helpers and c_.func.attr not in stop
                       and isinstance(c_.func.value, _ast.Name) and c_.func.value.id in ('self', ci.name) for c_ in _ast.walk(f.node))
-    if not uses_helper:
+    local_fns = {n_.name for n_ in _ast.walk(f.node) if isinstance(n_, _ast.FunctionDef) and n_ is not f.node} | \
+        {t_.id for n_ in _ast.walk(f.node) if isinstance(n_, _ast.Assign) and isinstance(n_.value, _ast.Lambda) for t_ in n_.targets if isinstance(t_, _ast.Name)}
+    uses_closure = any(isinstance(c_, _ast.Call) and isinstance(c_.func, _ast.Name) and c_.func.id in local_fns for c_ in _ast.walk(f.node))
+    if not uses_helper and not uses_closure:
         return f                      # nothing to read in place: the rule sees the method as written
     flat = peval.flatten({n_: f_.node for n_, f_ in ci.methods.items()}, f.node, depth=depth, stop=stop, impure=True)
     _ast.fix_missing_locations(flat)
